@@ -186,7 +186,7 @@ def probe(name, tdir, groups=("isa",), flavour="plain", extra_src=(), defs=()):
             else:
                 o += objs(tdir, [g])
         cmd = [cc, "-std=gnu99", "-g", "-O1", "-D_GNU_SOURCE", "-D" + GUARD, "-I" + os.path.join(tdir, "src")] + \
-              ["-D" + d for d in defs] + extra.split() + [src] + list(extra_src) + o + ["-o", out] + ld.split() + ["-ldl", "-lpthread"]
+              ["-D" + d for d in defs] + extra.split() + [src] + list(extra_src) + o + ["-o", out] + ld.split() + ["-ldl", "-lpthread", "-rdynamic"]
         run(cmd)
     return out
 
